@@ -18,7 +18,11 @@ prop("C15",
                 "submission time, including flow verdicts vs a from-scratch sync. DRIFT histories (systematic + generated): the same "
                 "process syncs the same desired state twice while the kernel moved away in between with a net-zero change of "
                 "the desired entries (pod label / namespace label / pod address round trips delivered as pod events, external "
-                "add / del / emptying of GLX sets, junk rules in GLX-PLCY / GLX-POD chains); the second sync must repair it.",
+                "add / del / emptying of GLX sets, junk rules in GLX-PLCY / GLX-POD chains); the second sync must repair it. "
+                "Frame of every SyncPodChains / deletePodChains call: a DeleteRule on GLX-INGRESS / GLX-EGRESS that removes the "
+                "jump of a pod the desired state hooks in that direction is `pod-hook-of-other-pod-removed` (theorem "
+                "`delete_pod_chains_frame`, fact `fact_delete_pod_chains`); pod / namespace names are drawn so that the "
+                "`name_namespace` strings contain one another (db-0_prod / db-0_prod2 / xdb-0_prod), selected and unselected.",
      level_note="the sync model (`syncRules`/`syncPods`/`fullSync` over strict primitive semantics at the level of "
                 "structured rules) is hand-written; every sync step of the real code over harness/nf is compared with it "
                 "starting from the REAL prior dump (post-state and failure classes must be equal); the strict iptables / "
